@@ -79,6 +79,7 @@ import treecheck
 warnings.simplefilter("ignore")
 
 MODULE = "ColaVerif.Properties.C16"
+SUBMODULES = ["ColaVerif.Properties.C16.Witnesses"]    # round 5: wide branch / 'SM' / complex carrier / abs_contract witnesses
 DRIVER = "DriverC16.lean"
 
 # Recorded findings are read from /verif/known_findings.json through common.known_clauses (no provisional list).
@@ -1382,7 +1383,16 @@ def auto_threshold_stream(ctx, eng):
 def run(ctx):
     gate, gate_err = None, None
     try:
-        gate = common.lean_gate(ctx, MODULE)
+        gate = dict(common.lean_gate(ctx, MODULE))
+        for sub in SUBMODULES:
+            g_ = common.lean_gate(ctx, sub)
+            gate["obligations"] += g_["obligations"]
+            gate["discharged"] += g_["discharged"]
+            gate["theorems"] = sorted(set(gate["theorems"]) | set(g_["theorems"]))
+            # one runnable line: the trailing shell comment of each part is dropped and written once at the end
+            parts = [x.replace("   # kernel re-check + #print axioms audit", "") for x in
+                     (gate["checker_cmd"], g_["checker_cmd"].split("cd lean && ", 1)[-1])]
+            gate["checker_cmd"] = " && ".join(parts) + "   # kernel re-check + #print axioms audit"
     except common.LeanGateError as ex:
         gate_err = str(ex)
     eng = Engine(ctx)
@@ -1454,8 +1464,13 @@ def run(ctx):
             "ritz_contract": "C16_krylov_ritz_witness (one Ritz vector of a 2 x 2 Gram matrix, not an eigenvector)",
             "lstsq_contract": "C16_pinv_lstsq_witness (lstsq = multiplication by the exact pseudo-inverse of the 3 x 2 operand)",
             "A_good, A_real": "in every witness above (Dense operands)",
-            "without a Lean witness": "abs_contract (C16_svd_diagonal), the CG antecedents hsolve / hkrylov (C16_pinv_cg_value, C16_pinv_cg_full_rank), "
-                                      "the wide-branch eigs_contract / ritz_contract, complex carriers",
+            "wide branch, 'SM' (round 5)": "C16_svd_krylov_wide_sm_witness ([[0, 1, 0], [2, 0, 0]], k = 1 < m = 2, 'SM', W = Product(Q, Y): the whole bundle of "
+                                           "C16_svd_krylov_wide_sorted, conclusion evaluated)",
+            "wide ritz_contract (round 5)": "C16_krylov_wide_ritz_witness ([[0, 5, 0], [2, 0, 0]], one Ritz vector, not an eigenvector)",
+            "complex carrier (round 5)": "C16_krylov_wide_complex_witness ([[3, 4i]] over C, matrix level), C16_svd_diagonal_complex_witness (Diagonal(3+4i, -2, 0))",
+            "abs_contract (round 5)": "C16_svd_diagonal_abs_witness (Witness.P.abs = |z| on R; Diagonal(-3, 0, 2))",
+            "without a Lean witness": "the CG antecedents hsolve / hkrylov (C16_pinv_cg_value, C16_pinv_cg_full_rank); the MODEL-level Krylov theorems "
+                                      "(svdKrylov on an operator tree) over a complex carrier",
         },
     }
     common.write_evidence(ctx, gate, cov, assumptions=[
@@ -1476,8 +1491,8 @@ def run(ctx):
         "assumed for the real eigensolver outputs: C16_lanczos_W_good proves it from the shape EigShape, which the driver decides per case (w_shape) "
         "together with wf && !dupSlice (w_good)",
         "LEAN WITNESSES exist for lapack_contract, LapackSorted, lt_contract, eigs_contract, EigsSorted, EigShape, ritz_contract, lstsq_contract, "
-        "sqrt_contract, inv_contract, A_good, A_real (coverage.contracts.lean_witnesses); NOT witnessed: abs_contract, the CG antecedents, the wide "
-        "branch, complex carriers",
+        "sqrt_contract, inv_contract, A_good, A_real, round 5: abs_contract, the wide branch (model and matrix level, 'SM'), a complex carrier at the "
+        "matrix level and for svd(Diagonal) (coverage.contracts.lean_witnesses); NOT witnessed: the CG antecedents, the model-level Krylov rule over C",
         "the ORDER of the values the real libraries return is observed on every case (eigs_ascending, lapack_descending); a disorder is reported as "
         "a broken contract",
         "LOBPCG computes in single precision (lobpcg.py: float32 / complex64): its cases are checked at the single-precision tolerances (x 1e4), "
@@ -1493,7 +1508,8 @@ def run(ctx):
 
 def witness_cases():
     """the exact inputs of the Lean witness theorems (Lemmas/SvdWitness.lean: C16_svd_dense_witness, C16_svd_krylov_witness,
-    C16_svd_krylov_sorted_witness, C16_krylov_ritz_witness, C16_pinv_lstsq_witness) through the same three-way comparison"""
+    C16_svd_krylov_sorted_witness, C16_krylov_ritz_witness, C16_pinv_lstsq_witness; round 5, Properties/C16/Witnesses.lean: the
+    wide / 'SM' / complex / Diagonal witnesses) through the same three-way comparison"""
     A2 = ["dense", "f64", 2, 2, [[0, 2], [1, 0]]]
     A3 = ["dense", "f64", 3, 2, [[-12, 9], [12, 16], [0, 0]]]
     B2 = ["dense", "f64", 2, 2, [[0, 2], [5, 0]]]
@@ -1502,6 +1518,22 @@ def witness_cases():
           {"fn": "svd", "op": A2, "k": 1, "which": "LM", "alg": "lanczos", "wrapper": "witness"},
           {"fn": "svd", "op": A2, "k": 1, "which": "SM", "alg": "lanczos", "wrapper": "witness"},
           {"fn": "svd", "op": B2, "k": 1, "which": "LM", "alg": "lanczos", "max_iters": 1, "wrapper": "witness"}]
+    # round 5 (Properties/C16/Witnesses.lean): the WIDE branch with 'SM' (C16_svd_krylov_wide_sm_witness), a partial run on the wide
+    # branch (C16_krylov_wide_ritz_witness), the complex wide operand (C16_krylov_wide_complex_witness), Diagonal with a negative and
+    # a zero entry / complex entries (C16_svd_diagonal_abs_witness, C16_svd_diagonal_complex_witness)
+    Aw = ["dense", "f64", 2, 3, [[0, 1, 0], [2, 0, 0]]]
+    Bw = ["dense", "f64", 2, 3, [[0, 5, 0], [2, 0, 0]]]
+    Ac = ["dense", "c128", 1, 2, [[3, [0, 4]]]]
+    Dr = ["diag", "f64", [-3, 0, 2]]
+    Dc = ["diag", "c128", [[3, 4], -2, 0]]
+    sv += [{"fn": "svd", "op": Aw, "k": 1, "which": "SM", "alg": "lanczos", "wrapper": "witness"},
+           {"fn": "svd", "op": Aw, "k": 1, "which": "LM", "alg": "lanczos", "wrapper": "witness"},
+           {"fn": "svd", "op": Aw, "k": 2, "which": "SM", "alg": "lanczos", "wrapper": "witness"},
+           {"fn": "svd", "op": Bw, "k": 1, "which": "LM", "alg": "lanczos", "max_iters": 1, "wrapper": "witness"},
+           {"fn": "svd", "op": Ac, "k": 1, "which": "LM", "alg": "lanczos", "wrapper": "witness"},
+           {"fn": "svd", "op": Ac, "k": 1, "which": "LM", "alg": "dense", "wrapper": "witness"},
+           {"fn": "svd", "op": Dr, "k": 3, "which": "LM", "alg": "omitted", "wrapper": "witness"},
+           {"fn": "svd", "op": Dc, "k": 3, "which": "SM", "alg": "omitted", "wrapper": "witness"}]
     pv = [{"fn": "pinv", "op": A3, "alg": alg, "wrapper": "witness", "rhs_seed": 16} for alg in ("lstsq", "cg", "omitted")]
     return sv, pv
 
